@@ -10,6 +10,21 @@ type chanCore struct {
 	capa   int
 	n      int // buffered elements
 	closed bool
+	// ctx, when set, makes this the Done channel of a context: a receive is
+	// ready (as on a closed channel) once the context is cancelled
+	ctx context.Context
+}
+
+// DoneChan replaces a ctx.Done() whose channel is kept in a variable.
+func DoneChan(ctx context.Context) *Chan[struct{}] {
+	c := &Chan[struct{}]{}
+	c.core.ctx = ctx
+	c.core.obj = CtxObj(ctx)
+	return c
+}
+
+func (k *chanCore) isClosed() bool {
+	return k.closed || (k.ctx != nil && k.ctx.Err() != nil)
 }
 
 // Chan is the controlled replacement of a Go channel.
@@ -108,7 +123,7 @@ func (c *RecvC[T]) readySelf() bool {
 	if c.ch == nil {
 		return false
 	}
-	return c.ch.core.n > 0 || c.ch.core.closed
+	return c.ch.core.n > 0 || c.ch.core.isClosed()
 }
 func (c *RecvC[T]) ready(self *Thread) bool {
 	if c.ch == nil {
@@ -143,7 +158,7 @@ func (c *RecvC[T]) fire() {
 		p.pending.completed = true
 		return
 	}
-	if k.closed {
+	if k.isClosed() {
 		var zero T
 		c.val, c.ok = zero, false
 		s.touch("recv-closed", []*Obj{k.obj}, nil)
